@@ -36,6 +36,7 @@ def _call_regex_under(ctx: Ctx, f: Func, plat: str, helper_names=("findall1", "f
         if feasible(p, ctx.folder, f, symenv) is False:
             continue
         env = dict(symenv)
+        loopvals: Dict[str, List[str]] = {}
         for node, lab in p.nodes:
             if node.ast is None:
                 continue
@@ -47,13 +48,24 @@ def _call_regex_under(ctx: Ctx, f: Func, plat: str, helper_names=("findall1", "f
                     for a, b in zip(t.elts, node.ast.value.elts):
                         if isinstance(a, ast.Name):
                             env[a.id] = ctx.folder.fold(b, f.module, env)
+            if node.kind == "for" and isinstance(node.ast.target, ast.Name):
+                seq = ctx.folder.fold(node.ast.iter, f.module, env)
+                if isinstance(seq, (tuple, list)) and seq and all(isinstance(v, str) for v in seq):
+                    loopvals[node.ast.target.id] = list(seq)
             roots = [node.ast] if node.kind != "for" else [node.ast.iter]
             for r in roots:
                 for x in ast.walk(r):
                     if isinstance(x, ast.Call) and ((isinstance(x.func, ast.Attribute) and x.func.attr in helper_names) or (isinstance(x.func, ast.Name) and x.func.id in helper_names)) and x.args:
                         v = ctx.folder.fold(x.args[0], f.module, env)
-                        if isinstance(v, str) and v not in out:
-                            out.append(v)
+                        vals = [v]
+                        if not isinstance(v, str):
+                            # the pattern is built from the variable of a loop over a constant tuple of words
+                            used = [k for k in loopvals if any(isinstance(y, ast.Name) and y.id == k for y in ast.walk(x.args[0]))]
+                            if len(used) == 1:
+                                vals = [ctx.folder.fold(x.args[0], f.module, dict(env, **{used[0]: w})) for w in loopvals[used[0]]]
+                        for v in vals:
+                            if isinstance(v, str) and v not in out:
+                                out.append(v)
     return out
 
 
